@@ -76,6 +76,13 @@ TEXT["C05"] = {
     "design_ref": "DESIGN.md section 3, C05",
 }
 
+TEXT["C20"] = {
+    "technique": "model-based stateful property testing (rapid state machine) with concurrent batches, plain and under the race detector; map model with loader fetch counters",
+    "text": "rapid's state-machine mode drives 1-2 template sets over 3 names (through aliases resolving to the same file) with FromCache, CleanCache(all / names), Debug toggles, content changes, unloadable files and concurrent batches (k=2-16 goroutines behind a barrier issuing the same FromCache: exactly one fetch and one instance; mixed FromCache/CleanCache batches: order-independent bounds), compared after every step with a map model that tracks the cached instance, its content generation and the loader's fetch counters; sets carry different globals, options and bans, and every cached entry of every set must survive operations on the other set. Run plain and with -race.",
+    "note": "Trusted: the recording loader and the model in harness/props/c20_test.go. Interleavings inside batches are sampled. Concurrent toggling of Debug is outside the property (documented as caller-synchronised).",
+    "design_ref": "DESIGN.md section 3, C20",
+}
+
 PENDING_REASON = "check not built yet in this build phase (DESIGN.md section 3 describes the planned PBT check); will be claimed once its quick tier is silent on the unchanged tree and kills its mutants"
 
 
